@@ -261,7 +261,14 @@ def mb60 (sHdg : Nat) (hdg : Int) (sIas ias sMach mach sBaro : Nat) (baro : Int)
  DF 18: 1–5 DF | 6–8 CF | 9–32 AA | 33–88 ME | 89–112 PI
  DF 4/5:   1–5 DF | 6–8 FS | 9–13 DR | 14–19 UM | 20–32 AC / ID | 33–56 AP
  DF 20/21: 1–5 DF | 6–8 FS | 9–13 DR | 14–19 UM | 20–32 AC / ID | 33–88 MB | 89–112 AP
- PI = parity of the preceding bits; AP = parity ⊕ address (`Spec.Crc.encodeAP`). -/
+ DF 0  (short air-air surveillance, §3.1.2.8.2):
+           1–5 DF | 6 VS | 7 CC | 8 spare | 9–11 SL | 12–13 spare | 14–17 RI | 18–19 spare | 20–32 AC | 33–56 AP
+ DF 16 (long air-air surveillance, §3.1.2.8.3):
+           1–5 DF | 6 VS | 7–8 spare | 9–11 SL | 12–13 spare | 14–17 RI | 18–19 spare | 20–32 AC | 33–88 MV | 89–112 AP
+ DF 11 (all-call reply / acquisition squitter, §3.1.2.5.2.2):
+           1–5 DF | 6–8 CA | 9–32 AA | 33–56 PI
+ PI = parity of the preceding bits, overlaid for DF 11 with the interrogator code (CL, IC in the low 7 bits; zero
+ for the acquisition squitter); AP = parity ⊕ address (`Spec.Crc.encodeAP`).  Spare bits are sent as zero. -/
 
 def esHeader (df c aa : Nat) : List Field := [(5, df), (3, c), (24, aa)]
 def survHeader (df fs dr um code : Nat) : List Field := [(5, df), (3, fs), (5, dr), (6, um), (13, code)]
@@ -280,5 +287,25 @@ def buildShort (df fs dr um code addr : Nat) : List Nat :=
 /-- Comm-B reply DF 20 (altitude) / DF 21 (identity) with the 56-bit MB field -/
 def buildCommB (df fs dr um code addr : Nat) (mb : List Field) : List Nat :=
   encodeAP (dataBytes (survHeader df fs dr um code ++ mb)) addr
+
+/-- header of the air-air surveillance replies up to the AC field: DF 0 has the cross-link capability bit CC at
+    bit 7, in DF 16 bits 7–8 are spare -/
+def airHeader0 (vs cc sl ri code : Nat) : List Field :=
+  [(5, 0), (1, vs), (1, cc), (1, 0), (3, sl), (2, 0), (4, ri), (2, 0), (13, code)]
+def airHeader16 (vs sl ri code : Nat) : List Field :=
+  [(5, 16), (1, vs), (2, 0), (3, sl), (2, 0), (4, ri), (2, 0), (13, code)]
+
+/-- short air-air surveillance reply DF 0: `code` is the 13-bit AC field -/
+def buildAir0 (vs cc sl ri code addr : Nat) : List Nat :=
+  encodeAP (dataBytes (airHeader0 vs cc sl ri code)) addr
+
+/-- long air-air surveillance reply DF 16 with the 56-bit MV field -/
+def buildAir16 (vs sl ri code addr : Nat) (mv : List Field) : List Nat :=
+  encodeAP (dataBytes (airHeader16 vs sl ri code ++ mv)) addr
+
+/-- all-call reply DF 11: capability, announced address; the parity is overlaid with the interrogator code `ic`
+    (0 for a squitter) -/
+def buildAllCall (ca aa ic : Nat) : List Nat :=
+  encodeAP (dataBytes [(5, 11), (3, ca), (24, aa)]) ic
 
 end Rs1090.Spec.Encode
